@@ -11,7 +11,7 @@ import (
 
 // selfBench expands the initial state in-process (as a bfs worker would) and
 // prints timing; with a file name it also writes a CPU profile. Development aid.
-func selfBench(fsName, tier, prof string) {
+func selfBench(fsName, tier, prof, hist string) {
 	verifrt.SetMode(verifrt.ModeSeq)
 
 	s := factory(tier)(fsName).(*sys)
@@ -26,7 +26,27 @@ func selfBench(fsName, tier, prof string) {
 	t0 := time.Now()
 	resets, viols := 0, 0
 
-	if err := s.Reset(); err != nil {
+	reset := func() error {
+		if err := s.Reset(); err != nil {
+			return err
+		}
+
+		if hist != "" {
+			for i := range s.ops {
+				if s.ops[i].String() == hist {
+					s.Step(i)
+
+					return nil
+				}
+			}
+
+			return fmt.Errorf("no operation %s", hist)
+		}
+
+		return nil
+	}
+
+	if err := reset(); err != nil {
 		fmt.Println(err)
 
 		return
@@ -39,7 +59,7 @@ func selfBench(fsName, tier, prof string) {
 		if sr.Changed || sr.Broken || sr.Rebuild {
 			resets++
 
-			if err := s.Reset(); err != nil {
+			if err := reset(); err != nil {
 				fmt.Println(err)
 
 				return
@@ -48,5 +68,5 @@ func selfBench(fsName, tier, prof string) {
 	}
 
 	d := time.Since(t0)
-	fmt.Printf("%s: %d ops, %d resets, %d viols, %v (%.1f us/op)\n", fsName, len(s.ops), resets, viols, d, float64(d.Microseconds())/float64(len(s.ops)))
+	fmt.Printf("%s: %d ops (of %d at this level), %d resets, %d viols, %v (%.1f us/op)\n", fsName, len(s.ops), s.NumOps(), resets, viols, d, float64(d.Microseconds())/float64(s.NumOps()))
 }
